@@ -9,12 +9,13 @@
      bytecode/src/instruction.rs              bin_op, equ, neq, neg, not
 
    The model has a [version] parameter:
-     [Orig m]  the code before fixes/num-checked-arithmetic.diff: plain `x + y`, `x - y`, `x * y`, `-x`
-               on i32/i128/u8, whose behaviour on overflow depends on the build:
-               m = Trap (debug build, overflow checks on: panic), m = Wrap (release build: wrap around);
-               zero guard of `/` and `%` without the Byte(0) case.
-     [Fixed]   the code with the fix: CheckedArithmetic::exact_* (checked_add/.. returning an error),
-               zero guard extended to Byte(0), `MIN % -1 = 0`, checked negation.
+     [Orig m]  the code before the fixes: plain `x + y`, `x - y`, `x * y`, `-x` on i32/i128/u8, whose
+               behaviour on overflow depends on the build: m = Trap (debug build, overflow checks on:
+               panic), m = Wrap (release build: wrap around); zero guard of `/` and `%` without Byte(0);
+               plain `%` (MIN % -1 panics).
+     [Fixed]   the code with fixes/num-overflow-panics-in-every-build.diff (checked_add/sub/mul/neg
+               + expect: a panic in EVERY build), fixes/num-byte-zero-divisor.diff (zero guard extended
+               to Byte(0)) and fixes/num-rem-min-by-minus-one.diff (wrapping_rem: MIN % -1 = 0).
    The correspondence check (vlib/c05.py) runs [Fixed] against the real code in debug AND release. *)
 From MS Require Export Num.NumDefs.
 
@@ -55,27 +56,21 @@ Definition orig_int (m : ovf_mode) (t : ity) (o : aop) (x y : Z) : res Z :=
   end.
 
 (* ---------------------------------------------------------------- integer arithmetic, fixed code *)
-(* ops.rs CheckedArithmetic *)
+(* T::checked_add / checked_sub / checked_mul / checked_neg *)
 Definition checked (t : ity) (exact : Z) : option Z := if in_range t exact then Some exact else None.
-Definition exact_add t x y := checked t (x + y).                       (* checked_add *)
-Definition exact_sub t x y := checked t (x - y).                       (* checked_sub *)
-Definition exact_mul t x y := checked t (x * y).                       (* checked_mul *)
-Definition exact_div (t : ity) (x y : Z) : option Z :=                 (* checked_div *)
-  if y =? 0 then None else if min_by_m1 t x y then None else Some (Z.quot x y).
-Definition exact_rem (t : ity) (x y : Z) : option Z :=                 (* rhs == 0 ? None : wrapping_rem *)
-  if y =? 0 then None else Some (Z.rem x y).
-
-(* apply_math_bin_op_if_applicable!(@exact ..): None => bail! *)
-Definition or_bail (o : option Z) : res Z := match o with Some z => Ok z | None => Err end.
+(* .expect("integer overflow in ..") : a panic in every build *)
+Definition expect (o : option Z) : res Z := match o with Some z => Ok z | None => Panic end.
+(* T::wrapping_rem: division by zero panics, MIN % -1 = 0 *)
+Definition wrapping_rem (t : ity) (x y : Z) : res Z := if y =? 0 then Panic else Ok (Z.rem x y).
 
 Definition fixed_int (t : ity) (o : aop) (x y : Z) : res Z :=
-  or_bail match o with
-          | Add => exact_add t x y
-          | Sub => exact_sub t x y
-          | Mul => exact_mul t x y
-          | Div => exact_div t x y
-          | Rem => exact_rem t x y
-          end.
+  match o with
+  | Add => expect (checked t (x + y))
+  | Sub => expect (checked t (x - y))
+  | Mul => expect (checked t (x * y))
+  | Div => rust_div t x y                 (* still the plain `/` *)
+  | Rem => wrapping_rem t x y
+  end.
 
 Definition int_op (v : version) (t : ity) (o : aop) (x y : Z) : res Z :=
   match v with Orig m => orig_int m t o x y | Fixed => fixed_int t o x y end.
@@ -220,7 +215,7 @@ Definition equals (a b : value) : res bool :=
 Definition neg_int (v : version) (t : ity) (x : Z) : res Z :=
   match v with
   | Orig m => plain m t (- x)             (* x = -x *)
-  | Fixed => or_bail (checked t (- x))    (* checked_neg().context(..)? *)
+  | Fixed => expect (checked t (- x))     (* checked_neg().expect(..) *)
   end.
 
 (* Primitive::negate *)
